@@ -677,9 +677,9 @@ func main() {
 	}
 
 	// ---------------- phase 1: single PUT (plain / streaming-signed)
-	sizes := []int{0, 1, 2, 100, 4095, 65536, 1<<20 + 1, chunkMB + 1}
+	sizes := []int{0, 1, 2, 100, 4095, 65536, 1<<20 + 1, chunkMB + 1, chunkMB, 2*chunkMB + 5}
 	if r.Thorough() {
-		sizes = append(sizes, chunkMB-1, chunkMB, 2*chunkMB+5, 3*chunkMB)
+		sizes = append(sizes, chunkMB-1, 3*chunkMB)
 	}
 	keyPat := []string{"obj/%d", "deep/dir/tree/obj-%d.bin", "sp ace/o bj %d", "uni-ü-✓-%d", "pct%%41-%d", "plus+%d", "q?mark-%d", "hash#tag-%d", "amp&eq=%d", "semi;colon,%d", "quote'\"%d", "back\\slash-%d", "tilde~star*-%d", "UPPER/Case-%d"}
 	nObj := r.Pick(30, 300)
